@@ -102,7 +102,7 @@ NewVs(r) == IF r.e = "Value" /\ Has(r, "val") THEN (VKey(r) :> r.val) @@ vs ELSE
 U == IF I = NoInst THEN FALSE ELSE I.fill # 0
 SameOf(r) == ~I.tof \/ r.tofSens
 FAfter(r) ==
-  IF r.e = "Instance" THEN L!Fresh("U")
+  IF r.e = "Instance" THEN (IF Has(r, "reuse") /\ r.reuse THEN f ELSE L!Fresh("U"))    \* reuse: the same object is set up again
   ELSE IF r.e = "SetUp" /\ I # NoInst THEN L!SetUpAll(f, SameOf(r), U, ~I.supplied, I.N)
   ELSE IF r.e \in Requests /\ I # NoInst THEN L!Step(f, r.e, I.same, U, "doc")
   ELSE f
